@@ -407,7 +407,8 @@ def run(tr):
                     S.bad("C05", f"a{a} terminated although the service registry holds it (type {tys[0]}) and nobody stopped it", idx)
                     S.bad("C08", f"a{a} terminated although it is registered for type {tys[0]} and nobody stopped it", idx)
             # C04 drain: everything whose send completed before any stop request was issued is handled
-            if x.graceful and not x.stream_ended:
+            # (whenever the loop returned without a failure, whatever callbacks it ran on the way out)
+            if how == 0 and not x.failed and not x.crashing and not x.stream_ended:
                 for op in S.ops.values():
                     if op.aid == a and op.must_handle and op.begun is None:
                         S.bad("C04", f"a{a} stopped gracefully without handling o{op.o}, whose send completed before any stop request", idx)
@@ -530,6 +531,11 @@ def run(tr):
             a = S.h.get(hid, (None, None))[0] if k in (2, 3) else None
             S.reg_ops[o] = {"k": k, "ty": ty, "a": a, "idx": idx}
             S.rpend += 1
+        elif t == 48:
+            # C07: a restart keeps the actor's identity
+            if not e[2]:
+                S.bad("C07", f"a{e[1]} was restarted into a context with a different id: handles, subscriptions and child entries issued before no longer name this actor", idx)
+                S.bad("C15", f"a{e[1]} changed its identity at a restart", idx)
         elif t == PROBE:
             x = A.get(e[1])
             if x:
